@@ -1,3 +1,4 @@
+import Deltio.Lemmas.SysInv
 import Deltio.Lemmas.Base64
 import Deltio.Model.System
 /-
@@ -145,5 +146,27 @@ theorem C13_walk {α} (xs : List α) (size : Nat) :
 example : walk [1, 2, 3, 4, 5] 2 6 none = [[1, 2], [3, 4], [5], []] := by decide
 example : parsePaging (-1) [] = none := by decide
 example : (Paging.new 5000 (some 3)).page [10, 11, 12, 13, 14] = [13, 14] := by decide
+
+
+/-! ### The listings are in creation order, whatever happened before -/
+
+/-- After any history, the topic list and the subscription list of the model are sorted by
+    strictly increasing internal id (ids are handed out by counters that only grow), i.e. they are in
+    creation order and sorting by id — what the server does with the HashMap's arbitrary iteration
+    order — yields exactly this order. A listing is the sublist of the entries of the requested
+    project (nothing of another project passes the filter), paged by `C13_walk`. -/
+theorem C13_listing_is_creation_order (ops : List SysOp) (project : Bytes) :
+    let sys := Sys.init.execOps ops
+    ((sys.topics.filter (fun t => t.name.1 == project)).map (·.tid)).Pairwise (· < ·) ∧
+    ((sys.subs.filter (fun e => e.name.1 == project)).map (·.sid)).Pairwise (· < ·) ∧
+    (∀ t ∈ sys.topics.filter (fun t => t.name.1 == project), t.name.1 = project) := by
+  intro sys
+  have h := SysInv_all ops
+  have e3 : sys.tsh.map (·.tid) = sys.topics.map (·.tid) := by simp [Sys.tsh, List.map_map, Function.comp]
+  have e4 : sys.ssh.map (·.sid) = sys.subs.map (·.sid) := by simp [Sys.ssh, List.map_map, Function.comp]
+  refine ⟨?_, ?_, ?_⟩
+  · exact (e3 ▸ h.tids).sublist (List.filter_sublist.map _)
+  · exact (e4 ▸ h.sids).sublist (List.filter_sublist.map _)
+  · intro t ht; simpa using (List.mem_filter.mp ht).2
 
 end Deltio
